@@ -1,5 +1,6 @@
 //! C04 — native-field gadgets are complete and sound w.r.t. their mathematical meaning.
 
+mod mapops;
 mod ops;
 mod scratch;
 
@@ -433,6 +434,48 @@ fn main() {
         vgad::explore_pairs(c, kof(c).unwrap(), pairs, &f2, &mut out);
         out
     });
+    // ---- set / map (non-)membership: the Merkle-map gadget (128 Poseidon hashes per access)
+    {
+        let mcases: Vec<(String, mapops::MapCase)> = mapops::cases(seed, tier.is_thorough()).into_iter().map(|c| (c.key(), c)).collect();
+        let mk = mcases.first().map(|(_, c)| vgad::min_k(c));
+        match mk {
+            Some(Ok(_)) => {
+                let info: Mutex<Vec<(String, u32, u64)>> = Mutex::new(vec![]);
+                cx.run_cases("map-honest", &mcases, |c| {
+                    let mut out = CaseOut::batch();
+                    let k = vgad::min_k(c).unwrap_or(15);
+                    let rep = vgad::explore_honest(c, k, &mut out);
+                    if rep.outcome == Outcome::Sat {
+                        info.lock().unwrap().push((c.key(), k, rep.n_assign));
+                    }
+                    out.sample = Some(json!({"case": c.key(), "k": k, "honest": rep.outcome.name(), "assignments": rep.n_assign}));
+                    out
+                });
+                // 1-deviation faults on a deterministic stride (the circuit has ~10^5 assignments)
+                let info = info.into_inner().unwrap();
+                let stride = tier.pick(997u64, 61u64);
+                cx.note(format!("map gadget: 1-deviation faults on every {stride}-th assignment index (offset 3), faults {{+1, zero, random}}"));
+                cx.cap(format!("map gadget fault sweep uses a stride of {stride} over the assignment indices"));
+                let mut mf: Vec<(String, (mapops::MapCase, u32, Vec<u64>))> = vec![];
+                for (key, c) in &mcases {
+                    let Some((_, k, n)) = info.iter().find(|(kk, _, _)| kk == key) else { continue };
+                    let idxs: Vec<u64> = (3..*n).step_by(stride as usize).collect();
+                    for (ci, chunk) in idxs.chunks(4).enumerate() {
+                        mf.push((format!("{key}#{ci}"), (c.clone(), *k, chunk.to_vec())));
+                    }
+                }
+                let f3: Vec<_> = vgad::default_faults(seed).into_iter().filter(|(n, _)| ["+1", "zero", "random"].contains(n)).collect();
+                cx.run_cases("map-faults", &mf, |(c, k, idxs)| {
+                    let mut out = CaseOut::batch();
+                    vgad::explore_faults(c, *k, idxs, &f3, &mut out);
+                    out
+                });
+            }
+            Some(Err(p)) => cx.machinery_error(format!("cannot size the map circuit: {p}")),
+            None => {}
+        }
+    }
+
     // ---- NativeGadget-only operations (bounded comparisons) through the FromScratch circuit
     {
         use scratch::{SCase, SOp};
